@@ -607,6 +607,10 @@ def lifecycle():
              and re.search(r"if handler_fd_peeked == ORPHANED_OP_FD \{\s*reap_orphaned_completion\(", cqp) else 0)
     tc = strip_comments(src("core/src/transport/tcp.rs"))
     emit_nat("connecterAbortIsFinal", 1 if re.search(r"Connect aborted: shutdown by system event", src("core/src/transport/tcp.rs")) and 's.contains("shutdown by")' in tc else 0)
+    mwait2 = re.search(r"async fn wait_for_retry_delay_internal\(.*?\n  \}\n", tc, re.S)
+    w2 = mwait2.group(0) if mwait2 else ""
+    emit_nat("connecterWaitsOutItsDelay", 1 if re.search(r"let wake_at = tokio::time::Instant::now\(\) \+ delay;\s*loop \{", w2) and re.search(r"Ok\(_\) => \{\}", w2)
+             and re.search(r"_ = tokio::time::sleep_until\(wake_at\) => return Ok\(true\),", w2) and "Ok(_) => Ok(true)" not in w2 and "Ok(_) => return Ok(true)" not in w2 else 0)
     emit_nat("connecterChecksParentRunning", 1 if re.search(r"if !self\.socket_logic\.core\(\)\.is_running\(\) \{\s*last_connect_attempt_error", tc) else 0)
     act2 = strip_comments(src("core/src/sessionx/actor.rs"))
     hs = act2[act2.index("'handshake: loop"):act2.index("self.read_half = Some(hs_read_half);")] if "'handshake: loop" in act2 else ""
